@@ -252,6 +252,35 @@ def report_failures(tier, seed, results):
     return violations
 
 
+NP_INFO = {}
+
+
+def np_table(prop):
+    """The declaration / borrow table once more on the build of specs WITHOUT its default `parallel` feature
+    (harness/np, binary h_decl_np): what a system-data handle declares must be what its fetch borrows in every
+    feature configuration."""
+    ok, blog = vlib.build_harness_np()
+    if not ok:
+        path = vlib.write_replay(prop, "build-np", ["harness/np (specs without the `parallel` feature) does not build against /repo's working tree", blog])
+        print(f"VIOLATION property={prop} replay={path} no-failing-input-found")
+        return 1
+    hp = subprocess.run([vlib.hbin_np("h_decl_np")], stdout=subprocess.PIPE, stderr=subprocess.PIPE, text=True, timeout=300)
+    dp = subprocess.run([vlib.DRIVER], input=hp.stdout, stdout=subprocess.PIPE, text=True, timeout=300)
+    r = vlib.parse_driver(dp.stdout.splitlines())
+    NP_INFO.update({"np_table_lines": len([l for l in hp.stdout.splitlines() if l.startswith("decl ")]), "np_table_rejections": len(r["mon"]) + len(r["diff"])})
+    if hp.returncode != 0 or r["mon"] or r["diff"] or r["bad"]:
+        first = (r["mon"] + r["diff"] + r["bad"] + [f"h_decl_np exited with {hp.returncode}"])[0]
+        path = vlib.write_replay(prop, "np-table",
+                                 [f"property {prop}: {WHAT}",
+                                  "build: np  (harness/np: specs built WITHOUT its default `parallel` feature)",
+                                  f"declaration / borrow table rejected: {first[:600]}",
+                                  "transcript of harness/np h_decl_np (each line: what the handle declares, what its fetch really borrows):"]
+                                 + hp.stdout.splitlines())
+        print(f"VIOLATION property={prop} replay={path}")
+        return 1
+    return 0
+
+
 def check(prop, tier, seed, t0):
     assert prop == PROP
     lean = vlib.build_lean(prop, thorough=(tier == "thorough"))
@@ -271,6 +300,7 @@ def check(prop, tier, seed, t0):
         with ThreadPoolExecutor(max_workers=6) as ex:
             results = list(ex.map(run_one, plan(tier, seed)))
         violations += report_failures(tier, seed, results)
+        violations += np_table(prop)
     stats = {}
     for r in results:
         for k, v in r["stats"].items():
@@ -307,6 +337,7 @@ def check(prop, tier, seed, t0):
         "branch_hits": {k: stats.get(k, 0) for k in ("systems", "dep_edges", "barriers", "conflict_pairs", "builds", "stages", "groups",
                                                      "par_stages", "shared_groups", "runs", "dispatches", "decls")},
         "runs": [r["label"] for r in results],
+        "no_parallel_build": NP_INFO,
         "samples": samples,
         "exhaustive": False,
     }
